@@ -28,6 +28,9 @@ type c11In struct {
 	Mut    string `json:"mut,omitempty"`    // none twin flip:<bit> swap setr:<hex> sets:<hex> len:<n> othermsg otherkey othercurve
 	Comp   bool   `json:"comp,omitempty"`
 	In     string `json:"in,omitempty"`
+	// where the key objects come from: "" = DecodePrivateKey(SK) and its PublicKey(); "pk-decoded-raw" /
+	// "pk-decoded-comp" = that public key encoded and decoded again; "sk-generated" = GeneratePrivateKey(seed SK)
+	Route string `json:"route,omitempty"`
 }
 
 func init() {
@@ -38,7 +41,7 @@ func init() {
 		PropCheck: "prop_bad_ids",
 		Gen:       c11Gen,
 		Run:       c11Run,
-		Rule:      "both curves x {SHA2-256, SHA3-256, SHA2-384, SHA3-384, Keccak-256, KMAC128/32, KMAC128/64}: signatures from Sign, the (r,n-s) twin, single-bit flips, r/s swapped, r or s in {0,n,n+1,2^256-1}, lengths 0..130, other message/key/curve, nil and short hashers; public-key decoders on crafted strings (all 256 prefix bytes, x >= p, off-curve, all-zero, lengths); non-trivial if the implementation returned a verdict or an error; distinct by case description",
+		Rule:      "both curves x {SHA2-256, SHA3-256, SHA2-384, SHA3-384, Keccak-256, KMAC128/32, KMAC128/64}: signatures from Sign, the (r,n-s) twin, single-bit flips, r/s swapped, r or s in {0,n,n+1,2^256-1}, lengths 0..130, other message/key/curve, nil and short hashers; public-key decoders on crafted strings (all 256 prefix bytes, x >= p, off-curve, all-zero, lengths); key objects from every constructor and then used (public key decoded from its raw / compressed encoding, private key from GeneratePrivateKey); private keys 1, 2, 3, n-1, n-2, 2^128, 2^255 and keys with 1-3 leading zero bytes; signed with one hasher and verified with another; crafted signatures for which u1*G + u2*Q is the point at infinity (rejected) or a doubling (valid); lengths that are 64 only modulo 256 / 2^16 and a nil signature; empty messages; hashers of 33, 100 and 200 bytes, fixed-output hashers of 31 and 0 bytes; digests of chosen shape through Sign; every Verify is called twice (same answer, arguments unmodified) and SignatureFormatCheck is called with the unsupported algorithms (documented invalid-input error); non-trivial if the implementation returned a verdict or an error; distinct by case description",
 		Shard:     c11Shard,
 	})
 }
@@ -217,6 +220,63 @@ func c11Gen(tier string, r *rand.Rand) []Case {
 			cs = append(cs, mkcase("sign-guard", c11In{Op: "signguard", Curve: c, SK: hx(c11Scalar(r, c)), Msg: hx(rbytes(r, 8)), Hasher: h}))
 		}
 	}
+	for _, c := range curves {
+		n, _ := new(big.Int).SetString(c11Orders[c], 16)
+		b32 := func(x *big.Int) string { return hx(x.FillBytes(make([]byte, 32))) }
+		vk := func(kind, sk, hasher, mut, route string, msgLen int) {
+			cs = append(cs, mkcase(kind, c11In{Op: "verify", Curve: c, SK: sk, Msg: hx(rbytes(r, msgLen)), Hasher: hasher, Mut: mut, Route: route}))
+		}
+		// key objects from every constructor, then used: decoded (raw, compressed) public keys, generated private keys
+		for _, route := range []string{"pk-decoded-raw", "pk-decoded-comp", "sk-generated"} {
+			vk("key-route", hx(c11Scalar(r, c)), "sha2_256", "none", route, 12)
+			vk("key-route", hx(c11Scalar(r, c)), "sha3_384", fmt.Sprintf("flip:%d", r.IntN(512)), route, 12)
+			vk("key-route", hx(c11Scalar(r, c)), "keccak_256", "twin", route, 12)
+		}
+		// all private keys in [1, n-1]: the ends of the range, small keys, leading zero bytes
+		edge := []*big.Int{big.NewInt(1), big.NewInt(2), big.NewInt(3), new(big.Int).Sub(n, big.NewInt(1)), new(big.Int).Sub(n, big.NewInt(2)),
+			new(big.Int).Lsh(big.NewInt(1), 128), new(big.Int).Lsh(big.NewInt(1), 255)}
+		for z := 1; z <= 3; z++ {
+			b := rbytes(r, 32)
+			for j := 0; j < z; j++ {
+				b[j] = 0
+			}
+			edge = append(edge, new(big.Int).SetBytes(b))
+		}
+		for i, d := range edge {
+			vk("edge-key", b32(d), hashers[i%len(hashers)], "none", "", 9)
+		}
+		vk("edge-key", b32(big.NewInt(1)), "sha2_256", "twin", "", 9)
+		vk("edge-key", b32(new(big.Int).Sub(n, big.NewInt(1))), "sha3_256", "otherkey", "", 9)
+		// the hasher is an argument of each call: signed with one, verified with another
+		vk("other-hasher", hx(c11Scalar(r, c)), "sha2_256", "otherhasher:sha3_256", "", 20)
+		vk("other-hasher", hx(c11Scalar(r, c)), "sha2_384", "otherhasher:sha2_256", "", 20)
+		vk("other-hasher", hx(c11Scalar(r, c)), "kmac128_64", "otherhasher:kmac128_32", "", 20)
+		// algebraic coincidences inside the verification equation u1*G + u2*Q: the sum is the point at
+		// infinity (must be rejected) or a doubling (a valid signature), digest solved for
+		for i := 0; i < 2; i++ {
+			vk("crafted-infinity", hx(c11Scalar(r, c)), "sha2_256", "craft:"+hx(c11Scalar(r, c))+":inf:"+hx(c11Scalar(r, c)), "", 8)
+			vk("crafted-doubling", hx(c11Scalar(r, c)), "sha2_256", "craft:"+hx(c11Scalar(r, c))+":dbl", "", 8)
+		}
+		vk("crafted-doubling", b32(big.NewInt(1)), "sha2_256", "craft:"+hx(c11Scalar(r, c))+":dbl", "", 8)
+		// lengths that are 64 only modulo 256 / 2^16 (a genuine signature followed by more bytes), nil signature
+		for _, l := range []int{64 + 256, 64 + 512, 128 + 256} { // (64 + 2^16 and 64 + 2^32 mod 2^16: judged by the runner, see "len:")
+			vk("length-wide", hx(c11Scalar(r, c)), "sha2_256", fmt.Sprintf("len:%d", l), "", 8)
+		}
+		vk("length-wide", hx(c11Scalar(r, c)), "sha2_256", "nilsig", "", 8)
+		vk("length-wide", hx(c11Scalar(r, c)), "nil", "nilsig", "", 8)
+		// empty message
+		vk("empty-message", hx(c11Scalar(r, c)), "sha2_256", "none", "", 0)
+		vk("empty-message", hx(c11Scalar(r, c)), "kmac128_32", "othermsg", "", 0)
+		// hasher sizes around the required 32 bytes (and far above), fixed-output hashers of 31 / 0 bytes
+		for _, h := range []string{"kmac128_33", "kmac128_200", "fixed:" + hx(rbytes(r, 33)), "fixed:" + hx(rbytes(r, 100))} {
+			vk("hasher-size", hx(c11Scalar(r, c)), h, "none", "", 8)
+			vk("hasher-size", hx(c11Scalar(r, c)), h, "flip:300", "", 8)
+		}
+		for _, h := range []string{"fixed:" + hx(rbytes(r, 31)), "fixed:", "kmac128_30"} {
+			vk("hasher-guard", hx(c11Scalar(r, c)), h, "none", "", 8)
+			cs = append(cs, mkcase("sign-guard", c11In{Op: "signguard", Curve: c, SK: hx(c11Scalar(r, c)), Msg: hx(rbytes(r, 8)), Hasher: h}))
+		}
+	}
 	cs = append(cs, c11GenDecoders(tier, r)...)
 	// the full verifications are contiguous in generation order: deal the cases round-robin
 	// over the shards so that every Coq file gets its share of them
@@ -390,7 +450,16 @@ func c11Run(c Case) (Result, error) {
 		term := fmt.Sprintf("CSignGuard %s %s %s %s", cid, cqnat(size), cqbool(nilh), cqN(c11ErrClass(serr)))
 		return Result{Coq: term, Key: string(c.Input), Nontrivial: true, Obs: map[string]any{"error_class": c11ErrClass(serr), "error": serr.Error()}}, nil
 	case "verify":
-		sk, err := crypto.DecodePrivateKey(alg, unhx(in.SK))
+		var sk crypto.PrivateKey
+		var err error
+		if in.Route == "sk-generated" {
+			sk, err = crypto.GeneratePrivateKey(alg, unhx(in.SK))
+			if err == nil {
+				in.SK = hx(sk.Encode())
+			}
+		} else {
+			sk, err = crypto.DecodePrivateKey(alg, unhx(in.SK))
+		}
 		if err != nil {
 			return Result{}, err
 		}
@@ -410,9 +479,24 @@ func c11Run(c Case) (Result, error) {
 		}
 		n, _ := new(big.Int).SetString(c11Orders[in.Curve], 16)
 		pk := sk.PublicKey()
+		switch in.Route {
+		case "pk-decoded-raw":
+			pk, err = crypto.DecodePublicKey(alg, pk.Encode())
+		case "pk-decoded-comp":
+			pk, err = crypto.DecodePublicKeyCompressed(alg, pk.EncodeCompressed())
+		}
+		if err != nil {
+			return Result{}, implViolation("re-decoding the public key of %s failed: %v", in.SK, err)
+		}
 		expect := 0
 		vmsg := msg
 		switch {
+		case in.Mut == "nilsig":
+			sig = nil
+		case strings.HasPrefix(in.Mut, "otherhasher:"):
+			if h, err = c11Hasher(in.Mut[len("otherhasher:"):]); err != nil {
+				return Result{}, err
+			}
 		case in.Mut == "none":
 			expect = 1
 		case in.Mut == "twin":
@@ -433,8 +517,24 @@ func c11Run(c Case) (Result, error) {
 		case strings.HasPrefix(in.Mut, "len:"):
 			l, _ := strconv.Atoi(in.Mut[4:])
 			ext := append(append([]byte{}, sig...), sig...)
-			ext = append(ext, sig...)
+			for len(ext) < l {
+				ext = append(ext, sig...)
+			}
 			sig = ext[:l]
+			if l > 64 && l%256 == 64 {
+				// the same with 64 + 2^16 bytes (too long for a Coq literal): the contract is (false, nil) / false
+				wide := append(append([]byte{}, sig[:64]...), make([]byte, 65536)...)
+				hw := h
+				if hw == nil || hw.Size() < 32 {
+					hw = hash.NewSHA2_256()
+				}
+				if v, e := pk.Verify(wide, msg, hw); v || e != nil {
+					return Result{}, implViolation("Verify of a %d-byte signature (a genuine one followed by zeros) returned (%v, %v)", len(wide), v, e)
+				}
+				if v, e := crypto.SignatureFormatCheck(alg, wide); v || e != nil {
+					return Result{}, implViolation("SignatureFormatCheck of a %d-byte signature returned (%v, %v)", len(wide), v, e)
+				}
+			}
 		case strings.HasPrefix(in.Mut, "craft:"):
 			// a VALID signature with a chosen s (1, n-1, ...): pick the nonce k, take r from k*G
 			// (the public key of k), and solve the ECDSA equation for the digest e = s*k - r*d mod n,
@@ -448,6 +548,29 @@ func c11Run(c Case) (Result, error) {
 			rr := new(big.Int).SetBytes(ksk.PublicKey().Encode()[:32])
 			rr.Mod(rr, n)
 			var sv *big.Int
+			dd := new(big.Int).SetBytes(unhx(in.SK))
+			if parts[2] == "inf" || parts[2] == "dbl" {
+				var e *big.Int
+				if parts[2] == "inf" {
+					// u1*G + u2*Q = ((e + r*d)/s)*G is the point at infinity: e = -r*d, any s
+					sv = new(big.Int).SetBytes(unhx(parts[3]))
+					e = new(big.Int).Mul(rr, dd)
+					e.Neg(e).Mod(e, n)
+				} else {
+					// u1*G = u2*Q = (k/2)*G, so the sum k*G is computed by a doubling: s = 2*d*r/k, e = d*r
+					sv = new(big.Int).Mul(big.NewInt(2), dd)
+					sv.Mul(sv, rr).Mul(sv, new(big.Int).ModInverse(new(big.Int).SetBytes(kb), n)).Mod(sv, n)
+					e = new(big.Int).Mul(rr, dd)
+					e.Mod(e, n)
+					expect = 1
+				}
+				h = &c11Fixed{e.FillBytes(make([]byte, 32))}
+				sig = append(rr.FillBytes(make([]byte, 32)), sv.FillBytes(make([]byte, 32))...)
+				if rr.Sign() == 0 || sv.Sign() == 0 {
+					expect = 0
+				}
+				break
+			}
 			switch parts[2] {
 			case "1":
 				sv = big.NewInt(1)
@@ -507,15 +630,31 @@ func c11Run(c Case) (Result, error) {
 		if in.Hasher == "nil" || (h != nil && h.Size() < 32) {
 			expect = 2
 		}
-		var ok bool
-		var verr error
-		panicked, pmsg := catch(func() { ok, verr = pk.Verify(sig, vmsg, h) })
+		var ok, ok2 bool
+		var verr, verr2 error
+		sig0, vmsg0 := append([]byte{}, sig...), append([]byte{}, vmsg...)
+		panicked, pmsg := catch(func() {
+			ok, verr = pk.Verify(sig, vmsg, h)
+			ok2, verr2 = pk.Verify(sig, vmsg, h)
+		})
 		if panicked {
 			return Result{}, implViolation("Verify panic: %s", pmsg)
+		}
+		if ok != ok2 || c11ErrClass(verr) != c11ErrClass(verr2) {
+			return Result{}, implViolation("Verify is not a function of its arguments: (%v, %v) then (%v, %v) for signature %x", ok, verr, ok2, verr2, sig)
+		}
+		if !bytes.Equal(sig, sig0) || !bytes.Equal(vmsg, vmsg0) {
+			return Result{}, implViolation("Verify modified its arguments (signature %x)", sig0)
 		}
 		fmtOK, ferr := crypto.SignatureFormatCheck(alg, sig)
 		if ferr != nil {
 			return Result{}, ferr
+		}
+		// the format check is only defined for the ECDSA algorithms: documented error for the others
+		for _, other := range []crypto.SigningAlgorithm{crypto.BLSBLS12381, crypto.UnknownSigningAlgorithm, crypto.SigningAlgorithm(200)} {
+			if v, e := crypto.SignatureFormatCheck(other, sig); v || !crypto.IsInvalidInputsError(e) {
+				return Result{}, implViolation("SignatureFormatCheck(%v) returned (%v, %v), documented: (false, invalid-input error)", other, v, e)
+			}
 		}
 		size, nilh, digest := 0, h == nil, ""
 		if h != nil {
